@@ -3,6 +3,7 @@ import SqiModel.EvenChain
 import SqiGen.Tables1
 import SqiGen.Tables3
 import SqiGen.Tables5
+import SqiGen.EvenGuard
 /- driver ops for the 2^n-isogeny chain models:
      even.trace <lvl> <isog_len>     -> hook-visible trace of ec_eval_even_strategy on the level's STRATEGY4 table:
                                         "tag a b c tag a b c …", followed by "E" when the model halts on a fault
@@ -28,11 +29,25 @@ def maxCur (s : St) : Int :=
     | _ => m) 0
 
 def handle : List String → Option String
-  | ["even.trace", l, n] => do
+  | ["even.trace", l, n] => do            -- through the public entry point ec_eval_even (guard from the C text)
+      let l ← parseHexNat? l
+      let n ← parseHexNat? n
+      let (tab, f) ← tableOf l
+      match evalEvenTop SqiGen.EvenGuard.naive tab f n with
+      | .naive _ => pure ""                -- naive chain: no hook events
+      | .strategy s => pure (traceInts s)
+  | ["even.inner", l, n] => do            -- the unguarded static routine ec_eval_even_strategy
       let l ← parseHexNat? l
       let n ← parseHexNat? n
       let (tab, f) ← tableOf l
       pure (traceInts (evalEven tab f n))
+  | ["even.top", l, n] => do              -- "<branch> <err?> <degree exponent>"
+      let l ← parseHexNat? l
+      let n ← parseHexNat? n
+      let (tab, f) ← tableOf l
+      match evalEvenTop SqiGen.EvenGuard.naive tab f n with
+      | .naive tr => pure s!"naive 0 {toHex tr.length}"
+      | .strategy s => pure s!"strategy {if s.err.isSome then 1 else 0} {toHex ((s.trace.map Ev.deg).sum)}"
   | ["even.summary", l, n] => do
       let l ← parseHexNat? l
       let n ← parseHexNat? n
